@@ -82,3 +82,10 @@ CLAIMED["C09"] = ("effect/reachability query over the module call graph + proven
   "60-key 2^i structure. Right level: 'pure function of seed and indices' and 'exactly one active' are wiring facts for all configurations; "
   "numeric agreement with NUT-02 and concurrent rotation are not claimed.",
   TRUST, "DESIGN.md §3 C09")
+CLAIMED["C15"] = ("edge-cut completeness rules + provenance structure of the state check and restore + SQL/schema/Go agreement tables",
+  "Decides that signatures are returned only after they were saved for the outputs' own B_, the per-Y structure of the state check (priority, "
+  "hits of that Y, witness of the matching row, resolve-before-answer), the per-message structure of restore (skip exactly on no-rows, other "
+  "errors fail, lock-step append of unmodified stored signatures, error wrapping visible to errors.Is) and the positional agreement of every "
+  "SQL statement with its Go arguments and Scan destinations against the folded schema. Right level: 'tells the truth' needs these structural "
+  "facts for every query; equality with a reference model over histories is not claimed.",
+  TRUST, "DESIGN.md §3 C15")
